@@ -126,6 +126,15 @@ type ContractDB struct {
 	Immutable []*ImmutableDecl
 	NonNil    map[string]bool // package-level variables initialised once to a non-nil value
 	ValInvs   []*ValInv
+	UFuns     map[string]*UFun
+	GhostAlias map[string]string // type name → owner whose ghost fields it shares (ghost like Stream: Reader, Buffer)
+}
+
+// UFun: uninterpreted specification function (a mathematical function of its arguments, nothing else known).
+type UFun struct {
+	Name   string
+	Params []Binder
+	Ret    string
 }
 
 // ValInv: invariant of every value of a named type (or pointer to it) that crosses a boundary:
@@ -150,7 +159,7 @@ type ImmutableDecl struct {
 
 func newContractDB() *ContractDB {
 	return &ContractDB{Funcs: map[string]*FuncContract{}, Preds: map[string]*Pred{}, NoEffect: map[string]bool{},
-		Ghost: map[string]*GhostField{}, Expect: map[string]int{}, IfaceMethods: map[string]*FuncContract{}, NonNil: map[string]bool{}}
+		Ghost: map[string]*GhostField{}, Expect: map[string]int{}, IfaceMethods: map[string]*FuncContract{}, NonNil: map[string]bool{}, GhostAlias: map[string]string{}, UFuns: map[string]*UFun{}}
 }
 
 var propTagRe = regexp.MustCompile(`^\[(C[0-9]+(?:,C[0-9]+)*)\]\s*`)
@@ -340,6 +349,17 @@ func (db *ContractDB) loadContractFile(path string, pkgPath string, src []byte) 
 			}
 			vi := &ValInv{PkgPath: pkgPath, TypeName: strings.TrimPrefix(f[0], "*"), Ptr: strings.HasPrefix(f[0], "*"), Clause: c, Props: props}
 			db.ValInvs = append(db.ValInvs, vi)
+		case "ufun":
+			// ufun name(a bytes, off Z, n Z) uint32
+			j := strings.LastIndex(rest, ")")
+			if j < 0 {
+				return fmt.Errorf("%s:%d: bad ufun", path, rl.line)
+			}
+			name, params, err := parseHeader(rest[:j+1])
+			if err != nil {
+				return fmt.Errorf("%s:%d: %v", path, rl.line, err)
+			}
+			db.UFuns[name] = &UFun{Name: name, Params: params, Ret: strings.TrimSpace(rest[j+1:])}
 		case "nonnil":
 			for _, f := range strings.Fields(strings.ReplaceAll(rest, ",", " ")) {
 				db.NonNil[pkgPath+"."+f] = true
@@ -353,7 +373,13 @@ func (db *ContractDB) loadContractFile(path string, pkgPath string, src []byte) 
 		case "ghost":
 			// ghost field Owner.name type
 			f := strings.Fields(rest)
-			if len(f) == 3 && f[0] == "field" {
+			if len(f) == 4 && f[0] == "like" {
+				// ghost like Stream: Reader Buffer
+				db.GhostAlias[f[2]] = strings.TrimSuffix(f[1], ":")
+				db.GhostAlias[f[3]] = strings.TrimSuffix(f[1], ":")
+			} else if len(f) == 3 && f[0] == "like" {
+				db.GhostAlias[f[2]] = strings.TrimSuffix(f[1], ":")
+			} else if len(f) == 3 && f[0] == "field" {
 				parts := strings.SplitN(f[1], ".", 2)
 				db.Ghost[f[1]] = &GhostField{Owner: parts[0], Name: parts[1], Type: f[2]}
 			} else if curF != nil {
@@ -520,6 +546,12 @@ func (db *ContractDB) loadContractFile(path string, pkgPath string, src []byte) 
 			ss.Line = rl.line
 			curF.Sites = append(curF.Sites, ss)
 			curSite = ss
+		case "set":
+			// inside a site: set <ghostvar> = <expr>
+			if curSite == nil {
+				return fmt.Errorf("%s:%d: set outside site", path, rl.line)
+			}
+			curSite.Ghost = append(curSite.Ghost, rest)
 		case "assert", "assume":
 			if curSite == nil {
 				return fmt.Errorf("%s:%d: %s outside site", path, rl.line, word)
